@@ -65,6 +65,21 @@ def run(tier):
         a, b = (Base(nm, s1, None), Base(nm, s2, f"x{i}a")) if first_plain else (Base(nm, s1, f"x{i}a"), Base(nm, s2, None))
         q = Select([Item(col("c_1", a.key()), "o_1"), Item(col("c_2", b.key()), "o_2"), Item(col("c_3", a.key()))], [Group(a, [(rnd.choice(["inner", "left"]), b, "on")])])
         extra.append(Stmt(rnd.choice(["insert", "ctas"]), Base(f"tb_sw{i}"), q))
+    from vlib.sqlgen import Derived, P
+    for i in range(24 if tier == "quick" else 200):
+        # UPDATE ... FROM with sub-queries of its own scopes: WHERE IN / EXISTS over an aliased table, a derived table in FROM
+        src = Base(f"tb_us{i}", rnd.choice([None, "sa"]), f"s{i}")
+        inner = Base(f"tb_uo{i}", None, f"o{i}" if i % 3 else None)
+        sub = Select([Item(col("k_1", inner.key()))], [Group(inner)])
+        frm = [Group(src)]
+        if i % 4 == 0:
+            d = Derived(Select([Item(col("c_1", f"e{i}")), Item(col("c_2", f"e{i}"), "o_2")], [Group(Base(f"tb_ue{i}", None, f"e{i}"))]), f"d{i}")
+            frm = [Group(src, [("inner", d, "on")])]
+        sets = [("c_1", col("c_1", src.key())), ("c_9", col("c_3", src.key()))]
+        if i % 4 == 0:
+            sets.append(("c_8", col("o_2", f"d{i}")))
+        where = P(rnd.choice(["in", "exists"]), colref=col("k_1", src.key()), query=sub)
+        extra.append(Stmt("update", Base(f"tb_ut{i}"), None, None, {"set": sets, "from": frm, "where": where}))
     for i in range(n + len(extra)):
         st = g.statement(rnd.choice([1, 2, 2, 3]), kinds=kinds) if i < n else extra[i - n]
         sql = sqlgen.render(st)
@@ -143,6 +158,8 @@ def _pairs(b, k):
 
 def classify(b, diff, a, e):
     t = set(b["tags"])
+    if b["dialect"] == "non-validating" and "col.qualified_by_full_name" in t:
+        return "KF-16e"  # schema.table.column: the legacy analyzer takes the schema for the qualifier; an alias added to the table removes that spelling
     if b["dialect"] == "non-validating" and (b["mode"] == "toggle_as" or any(str(v).startswith("tb_k") for v in (b.get("mapping") or {}).values())):
         return "KF-30e"
     if b["dialect"] == "non-validating" and t & {"select.star_qualified", "select.star"} and diff == ["column_pairs"] and \
